@@ -1407,6 +1407,10 @@ pub fn gen_names(m: &MSpec, rng: &mut Rng) -> NameSpec {
             let at = rng.usize(v.len() + 1);
             v.insert(at, (np + nl + 3 + rng.below(4) as u32, format!("$stale_{}", fi)));
         }
+        if rng.chance(1, 12) && np + nl > 0 {
+            // the style of old wat2wasm output: an entry for every local, all names empty
+            v = (0..(np + nl)).map(|li| (li, String::new())).collect();
+        }
         if !v.is_empty() {
             n.locals.push((fi, v));
         }
